@@ -243,3 +243,25 @@ shape("semgrep_internal", "src/codemodder/semgrep.py", ["C18"], "semgrep_interna
 shape("semgrep_rule_detector", "src/codemodder/codemods/semgrep.py", ["C18"], "semgrep_rule_detector_shape", "as_read", "AsRead",
       ["_populate_yaml", "SemgrepRuleDetector.get_yaml_files", "SemgrepRuleDetector.apply"],
       doc="_populate_yaml, SemgrepRuleDetector.get_yaml_files / apply")
+
+
+def _hardening_args_from(tree, repo):
+    d = find_def(tree, "RequestsVerify.on_result_found")
+    if d is None:
+        raise Unrecognised("RequestsVerify.on_result_found not found")
+    calls = [n for n in ast.walk(d) if isinstance(n, ast.Call) and isinstance(n.func, ast.Attribute) and n.func.attr == "replace_args"]
+    if len(calls) != 1 or not calls[0].args or not isinstance(calls[0].args[0], ast.Name):
+        raise Unrecognised("RequestsVerify.on_result_found does not call self.replace_args(<node>, ...) exactly once")
+    ret = [n for n in ast.walk(d) if isinstance(n, ast.Return)]
+    if len(ret) != 1 or ast.unparse(ret[0].value) != "self.update_arg_target(updated_node, new_args)":
+        raise Unrecognised("RequestsVerify.on_result_found does not return self.update_arg_target(updated_node, new_args)")
+    nm = calls[0].args[0].id
+    if nm == "original_node":
+        return "FromOriginal"
+    if nm == "updated_node":
+        return "FromUpdated"
+    raise Unrecognised(f"replace_args is given `{nm}`")
+
+
+custom("hardening_args_from", "src/core_codemods/requests_verify.py", ["C18"], "hardening_args_from", "args_from", "FromUpdated",
+       _hardening_args_from, doc="RequestsVerify.on_result_found: which node's args replace_args rebuilds from")
